@@ -63,6 +63,9 @@ class Sym:
                 return self.mem[k2]
             if any(len(k) > len(k2) and k[:len(k2)] == k2 for k in self.mem):
                 return self.read_key(k2)
+            if isinstance(last, str) and last.startswith(".") and not any(isinstance(e, str) and e.startswith("as ") for e in base[1][-1:]):
+                # a field of what a place held on entry is what the field's place held on entry (a Copy newtype passed by value)
+                return ("init", k2)
         if base[0] == "overlay":
             d = base[2]
             if (last,) in d:
@@ -146,6 +149,25 @@ class Sym:
                             self.mem[anc] = nv
                             return
                     break
+        # writing into a value that was copied whole while only some of its parts were known (an entry value, possibly overlaid with the
+        # parts written before the copy): the part written now replaces what the overlay says about it
+        for n in range(len(key) - 1, 0, -1):
+            anc = key[:n]
+            if anc in self.mem:
+                av = self.mem[anc]
+                path = key[n:]
+                if av[0] in ("overlay", "init") and all(isinstance(e, str) and e.startswith(".") for e in path):
+                    inner, subs = (av[1], dict(av[2])) if av[0] == "overlay" else (av, {})
+                    for k_ in [k_ for k_ in subs if k_[:len(path)] == path or path[:len(k_)] == k_]:
+                        if len(k_) <= len(path) and k_ != path:
+                            # a shorter overlay entry covers this place: write inside it when it is an aggregate, else give up the merge
+                            break
+                        del subs[k_]
+                    else:
+                        subs[tuple(path)] = val
+                        self.mem[anc] = ("overlay", inner, subs)
+                        return
+                break
         # writing into a known aggregate held by the parent: rebuild the parent
         if len(key) > 1:
             parent = key[:-1]
@@ -323,6 +345,21 @@ class Sym:
         m = re.match(r"^std::time::Duration::(from_secs|from_millis|from_micros|from_nanos)$", name)
         if m and len(args) == 1 and args[0][0] == "const" and isinstance(args[0][1], int) and not isinstance(args[0][1], bool):
             return ("dur", args[0][1] * {"from_secs": 10 ** 9, "from_millis": 10 ** 6, "from_micros": 10 ** 3, "from_nanos": 1}[m.group(1)])
+        # two constant durations compared (`Duration::ZERO < Duration::from_millis(1)`)
+        full = name + " " + (t.get("res_name") or "")
+        m = re.search(r"<std::time::Duration as std::cmp::Partial(?:Ord|Eq)>::(lt|le|gt|ge|eq|ne)\b", full) or \
+            (re.search(r"std::cmp::Partial(?:Ord|Eq)::(lt|le|gt|ge|eq|ne)$", name) if (t.get("self_ty") or "") == "std::time::Duration" else None)
+        if m and len(args) == 2:
+            vs = []
+            for v in args:
+                hops = 0
+                while v is not None and v[0] in ("ref", "constref") and hops < 6:
+                    v = self.read_key(v[1]) if v[0] == "ref" else v[1]; hops += 1
+                vs.append(v)
+            if all(v is not None and v[0] == "dur" for v in vs):
+                a, b = vs[0][1], vs[1][1]
+                r = {"lt": a < b, "le": a <= b, "gt": a > b, "ge": a >= b, "eq": a == b, "ne": a != b}[m.group(1)]
+                return ("const", r, "true" if r else "false", None)
         m = re.match(r"^std::time::Duration::(as_secs|subsec_nanos|subsec_millis|subsec_micros|as_millis|as_micros|as_nanos|is_zero)$", name)
         if m and len(args) == 1:
             v = args[0]
@@ -374,6 +411,14 @@ class Sym:
             a = self.deref_arg(args[0])
             inner = self.read_key(a) if a is not None else args[0]
             return ("clone", inner, a)
+        if name == "<T as std::convert::Into<U>>::into" and len(args) == 1 and t.get("gargs") and len(t["gargs"]) >= 2 and t["gargs"][0] != t["gargs"][1]:
+            # `x.into()` is `U::from(x)`: the identity only if the crate has no conversion of its own into U
+            facts = getattr(self.f, "facts", None)
+            u = t["gargs"][1]
+            if facts is not None and any(k.startswith("<%s as std::convert::From<" % u) for k in facts.local_fns):
+                return ("call", name, args, bb, t.get("res_name") or "")
+        if name == "<std::option::Option<T> as std::default::Default>::default" and not args:
+            return ("none",)
         if name in IDENTITY_CALLS and len(args) == 1:
             return args[0]
         if callee in ("std::convert::Into::into", "std::convert::From::from") and len(args) == 1 and t.get("res") in (
@@ -421,6 +466,21 @@ def promoted_value(f, idx):
 _NAMED = {}
 
 
+def _walk(v, depth=0):
+    if not isinstance(v, tuple) or depth > 40:
+        return
+    yield v
+    for y in v:
+        if isinstance(y, tuple):
+            yield from _walk(y, depth + 1)
+        elif isinstance(y, list):
+            for z in y:
+                yield from _walk(z, depth + 1)
+        elif isinstance(y, dict):
+            for z in y.values():
+                yield from _walk(z, depth + 1)
+
+
 def static_scalar(facts, def_id):
     """value of a `static` of the crate that is initialised with a literal and only ever borrowed immutably (never `static mut`-style
     through `&mut` / `*mut`), as a constant term; None otherwise"""
@@ -437,6 +497,21 @@ def static_scalar(facts, def_id):
                         c = op_const(o)
                         if isinstance(c, (int, bool)):
                             v = ("const", c, o["v"], None)
+            if v is None:
+                # a table (`static NAMES: [(&str, T); N] = [..]`): its initialiser evaluated like that of a named constant
+                from core import Fn
+                try:
+                    g = Fn(facts, {"id": def_id, "promoted": []}, s_["mir"])
+                    paths = enumerate_paths(g)
+                    if len(paths) == 1:
+                        st_ = run_path(g, paths[0])
+                        v = st_.read_key((0,))
+                        if v[0] == "ref":
+                            v = st_.read_key(v[1])
+                        if not (v and v[0] in ("aggx", "agg", "tuple")) or any(x and x[0] in ("call", "unknown", "init") for x in _walk(v)):
+                            v = None
+                except Exception:
+                    v = None
     if v is not None:
         for g in facts.local_fns.values():
             for b in g.mir["blocks"]:
